@@ -1204,6 +1204,11 @@ class Interp:
             return a == b
         if op == "!=":
             return a != b
+        if op in ("|", "&", "^", "<<", ">>") and ints:
+            if not sym:
+                return {"|": a | b, "&": a & b, "^": a ^ b, "<<": a << b, ">>": a >> b}[op]
+            # bit operations on a symbolic integer (flag words): an opaque integer - sound over-approximation, nothing is claimed about it
+            return self.fresh("bits", "int")
         raise Unsupported("binary operator " + op)
 
     def e_BinaryOperator(self, n):
@@ -1598,6 +1603,15 @@ class Interp:
             if ty in ("int", "const int"):
                 return {"epsilon": 0, "max": 2 ** 31 - 1, "min": -2 ** 31, "lowest": -2 ** 31}[name]
             raise Unsupported("numeric_limits of %s at %s" % (ty, self.where(n)))
+        if name in ("_mm_getcsr", "fegetround", "fegetenv", "_controlfp", "_control87"):
+            # reading the floating-point environment: an opaque value (the exact-real model has no such state)
+            self.events.append(("fpenv_read", name, self.where(n)))
+            return self.fresh("fpenv", "int")
+        if name in ("_mm_setcsr", "fesetround", "fesetenv", "feholdexcept", "feupdateenv", "_MM_SET_FLUSH_ZERO_MODE", "_MM_SET_DENORMALS_ZERO_MODE", "_MM_SET_ROUNDING_MODE"):
+            # CHANGING the floating-point environment (rounding mode, flush-to-zero ...): binary64 results of the code that follows
+            # depend on it - an event for the legs that claim bit-identical results
+            self.events.append(("fpenv_write", name, self.where(n)))
+            return 0
         if name == "pow":
             x, y = a
             if is_sym(y):
